@@ -45,10 +45,11 @@ var ansiRE = regexp.MustCompile(`\x1b\[[0-9;?]*[A-Za-z]`)
 
 // seamItems: the alphabet of things the operator channel can carry.
 //
+//	R plain chunk with CR LF and a lone CR
 //	P plain chunk ending in a newline     Q plain chunk without a newline
 //	M plain chunk with embedded newlines  N notice (red, like a close notice)
 //	S status line (green)
-const seamAlphabet = "PQMNS"
+const seamAlphabet = "PQMRNS"
 
 func seamItem(kind byte, i int) (cl opshell.CLine, want string) {
 	switch kind {
@@ -60,6 +61,10 @@ func seamItem(kind byte, i int) (cl opshell.CLine, want string) {
 		return opshell.CLine{Plain: true, Line: s}, s
 	case 'M':
 		s := fmt.Sprintf("<M%d>one\ntwo\n\nthree", i)
+		return opshell.CLine{Plain: true, Line: s}, strings.ReplaceAll(s, "\n", "\r\n")
+	case 'R':
+		/* A shell that sends CR LF itself: nothing of it may be dropped. */
+		s := fmt.Sprintf("<R%d>dos\r\nline\rbar\r\n", i)
 		return opshell.CLine{Plain: true, Line: s}, strings.ReplaceAll(s, "\n", "\r\n")
 	case 'N':
 		s := fmt.Sprintf("<N%d>[addr] Output connection closed", i)
@@ -108,7 +113,7 @@ func seamRun(capPath, seq, regime string) (viols []seamViol, err error) {
 	if got != want {
 		/* Classify: lost, reordered, or changed. */
 		sig := "terminal-differs"
-		markers := regexp.MustCompile(`<[PQMNS]\d+>`)
+		markers := regexp.MustCompile(`<[PQMRNS]\d+>`)
 		gm, wm := strings.Join(markers.FindAllString(got, -1), ""), strings.Join(markers.FindAllString(want, -1), "")
 		switch {
 		case gm == wm:
@@ -225,6 +230,27 @@ func termSeamWorker(args []string) int {
 				res.Execs++
 				res.Steps += len(s)
 				add(vs)
+			}
+		}
+	case "c10":
+		/* Notices carrying percent signs reach the terminal verbatim. */
+		for _, text := range c10Strings(append(append([]string{}, c10Raw...), c10Escapes...), 2) {
+			line := "[203.0.113.9] File requested: /zz" + text + "?q=" + text
+			ts, err := newTermSessionOpts(capPath, true, nil, false)
+			if nil != err {
+				res.Err = err.Error()
+				break
+			}
+			quiesce.Wait()
+			ts.output()
+			ts.och <- opshell.CLine{Line: line, Color: opshell.ColorBlue}
+			ts.och <- opshell.CLine{Plain: true, Line: "plain " + text + "\n"}
+			quiesce.Wait()
+			got := ansiRE.ReplaceAllString(ts.output(), "")
+			ts.close()
+			res.Execs++
+			if !strings.Contains(got, line+"\r\n") || !strings.Contains(got, "plain "+text+"\r\n") {
+				add([]seamViol{{Sig: "notice-changed-on-the-way-to-the-terminal", What: fmt.Sprintf("the notice %q (and the chunk %q) reached the terminal as %q", line, "plain "+text, got), Case: "c10:" + text}})
 			}
 		}
 	case "c02":
